@@ -852,7 +852,14 @@ class Interp:
                         cargs.append(a)
                         continue
                     m = self.getmem(state, base)
-                    cargs.append(a); cargs.append(m.frozen())
+                    if m.kind == 'alloca':
+                        # the address of a local is an artefact of instruction numbering: name it by its position
+                        # among this call's pointer arguments (aliasing between arguments stays visible)
+                        k = ptr_bases.index(base) if base in ptr_bases else len(ptr_bases)
+                        cargs.append(T.mk('ptr', 'local#%d' % k, a.args, 'ptr'))
+                    else:
+                        cargs.append(a)
+                    cargs.append(m.frozen())
                     ptr_bases.append(base)
                 elif a.op == 'ite':
                     raise Unsupported('opaque call with merged pointer argument')
